@@ -778,19 +778,14 @@ Proof. unfold cstr. apply (span_all nz s). Qed.
 
 Lemma cstr_id s : forallb nz s = true -> cstr s = s.
 Proof.
-  unfold cstr. induction s as [|c r IH]; intros H; [reflexivity|].
+  unfold cstr, nz. induction s as [|c r IH]; intros H; [reflexivity|].
   cbn [forallb] in H. apply andb_prop in H as [Hc Hr].
-  cbn [span]. fold nz. rewrite Hc. specialize (IH Hr).
+  cbn [span]. rewrite Hc. specialize (IH Hr).
   destruct (span (fun c0 : N => negb (c0 =? 0)) r) as [a b] eqn:E. cbn [fst] in *. rewrite IH. reflexivity.
 Qed.
 
 Lemma forallb_app' {A} (p : A -> bool) a b : forallb p (a ++ b) = forallb p a && forallb p b.
 Proof. induction a as [|x a IH]; cbn [app forallb]; [reflexivity|]. rewrite IH, andb_assoc. reflexivity. Qed.
-
-Lemma tokens_from_props (P : bytes -> Prop) :
-  (forall cur c, P cur -> True) ->
-  forall s cur, True -> True.
-Proof. intros; exact I. Qed.
 
 (* every token is non-empty and made of non-NUL octets (when the string is) *)
 Lemma tokens_from_ok : forall s cur,
